@@ -130,6 +130,12 @@ class Session:
         names = set()
         try:
             for p in explore(run, expected_exceptions=expected_exceptions, max_paths=max_paths, feas_timeout_ms=feas_timeout_ms, stats=st):
+                if getattr(p, "pruned", False):
+                    # only the safety conditions asserted before the path became infeasible
+                    if not assume_safety:
+                        for k, s in enumerate(p.ctx.safety):
+                            self._add(name, fn, "safety", p, "%s#%d[pruned path]" % (s["kind"], k), p.ctx.hyps(s["pc"]), s["cond"], shape, spec=s.get("spec", False))
+                    continue
                 paths += 1
                 ctx = p.ctx
                 for k, s in enumerate(ctx.safety):
